@@ -283,9 +283,21 @@ func zzExec(g *zzGraph, tf *ast.Taskfile, o zzRunOpts, roots ...string) ([]zz.Ev
 	return zzExecOpts(g, tf, o, false, roots...)
 }
 
+// zzExecWithShell is zzExec with a shell that handles some commands itself.
+func zzExecWithShell(g *zzGraph, tf *ast.Taskfile, shell func(context.Context, *execext.RunCommandOptions) error, roots ...string) ([]zz.Event, error) {
+	zzShellOverride = shell
+	defer func() { zzShellOverride = nil }()
+	return zzExecOpts(g, tf, zzRunOpts{}, false, roots...)
+}
+
+var zzShellOverride func(context.Context, *execext.RunCommandOptions) error
+
 func zzExecOpts(g *zzGraph, tf *ast.Taskfile, o zzRunOpts, terminal bool, roots ...string) ([]zz.Event, error) {
 	zzGraphCur = g
 	zzRun = zzProbe
+	if zzShellOverride != nil {
+		zzRun = zzShellOverride
+	}
 	zzEnviron = []string{"HOME=/h"}
 	before := len(zz.Trace()) // the events of this invocation only
 	var out io.Writer = io.Discard
@@ -425,7 +437,7 @@ func zzShape(n int) (*zzGraph, []string, bool) {
 			{Name: "P", Deps: []string{"S", "F"}},
 			{Name: "Q", Deps: []string{"S"}, Cmds: []zzCmd{probe}},
 			{Name: "F", Cmds: []zzCmd{probe}},
-			{Name: "S", Run: "once", Cmds: []zzCmd{probe}},
+			{Name: "S", Run: "once", IgnoreError: zz.Bool("ignore.S"), Cmds: []zzCmd{probe}},
 		}}, []string{"R"}, false
 	case 5: // dependency + nested call of the same shared task
 		return &zzGraph{Tasks: []zzTask{
